@@ -940,7 +940,7 @@ func (p *parser) postfix(n *Node) *Node {
 		case p.isOp("::"):
 			p.pos++
 			n = &Node{Op: "cast", Text: p.typeName(), Args: []*Node{n}}
-		case p.isOp("[") :
+		case p.isOp("["):
 			p.pos++
 			idx := &Node{Op: "index", Args: []*Node{n}}
 			for !p.isOp("]") && !p.eof() {
